@@ -348,9 +348,9 @@ def importedOf (files : FileTable) : Option (List Name) → Except GErr (Option 
   | none => .ok none
   | some l => (importedDepFiles files l []).map some
 
-/-- imported build-dep files followed by the module's own; `none` when there are neither -/
+/-- imported build-dep files followed by the module's own; `none` when there are none (an empty list is no list) -/
 def combinedDeps (imported localDeps : Option (List String)) : Option (List String) :=
-  if imported.isSome || localDeps.isSome then some (imported.getD [] ++ localDeps.getD []) else none
+  if (imported.getD [] ++ localDeps.getD []).isEmpty then none else some (imported.getD [] ++ localDeps.getD [])
 
 def depsHashOf (combined : Option (List String)) : Option String := combined.map (hashPaths "deps")
 
